@@ -1165,6 +1165,31 @@ fn main() {
         fixed.push((Entry::Stm(Ty::MTree), Input { kind: "witness-count".into(), bytes: b, expect: None, note: format!("leaf count {}", n) }));
     }
 
+    // offset-arithmetic boundaries, swept deterministically: a decoder that computes
+    // `base + count * element_size + tail` from an untrusted u64 overflows only for the few counts next to
+    // 2^64 / element_size; every u64 field of every legacy layout gets every such value
+    // (element sizes of the formats: 1, 2, 4, 8 (u64), 16, 32 (hash), 40, 48 (sigma), 56, 64, 96 (vk),
+    // 104, 192 (vk+pop), 360; base + tail up to 128)
+    let mut sweep: Vec<u64> = vec![];
+    for es in [1u64, 2, 4, 8, 16, 32, 40, 48, 56, 64, 96, 104, 192, 360] {
+        for t in 0..=128u64 {
+            sweep.push((u64::MAX - t) / es);
+        }
+    }
+    sweep.sort_unstable();
+    sweep.dedup();
+    for ty in MODELLED {
+        if let Some(h) = pool.by_ty[ty as usize].iter().max_by_key(|h| h.legacy.fields.len()) {
+            for &f in &h.legacy.fields {
+                for &v in &sweep {
+                    let mut b = h.legacy.buf.clone();
+                    b[f..f + 8].copy_from_slice(&v.to_be_bytes());
+                    fixed.push((Entry::Stm(ty), Input { kind: "boundary-sweep".into(), bytes: b, expect: None, note: format!("u64 field at {} := {}", f, v) }));
+                }
+            }
+        }
+    }
+
     let n_rand: u64 = if args.thorough { 400_000 } else { 20_000 };
     let total = fixed.len() as u64 + n_rand;
     let mut fixed_it = fixed.into_iter();
